@@ -104,7 +104,10 @@ THEOREMS = [
     "SymmModel.Heap.binaryBlockwise_enc",
     "SymmModel.Heap.multiplyDiagonal_abs",
     "SymmModel.Heap.mdSem_enc",
-    "SymmModel.Heap.multiplyDiagonal_pureV"
+    "SymmModel.Heap.multiplyDiagonal_pureV",
+    "SymmModel.C14.map_blocks_value",
+    "SymmModel.C14.squeeze_value",
+    "SymmModel.C14.expand_dims_value"
 ]
 LEAN_FILES = ["SymmModel.Model.Heap", "SymmModel.Proofs.HeapLemmas", "SymmModel.Proofs.HeapRefine", "SymmModel.Props.C14", "SymmModel.Driver.HeapH", "SymmModel.Model.Heap2", "SymmModel.Proofs.Heap2Binary", "SymmModel.Proofs.Heap2Inplace", "SymmModel.Proofs.Heap2Lemmas", "SymmModel.Props.C14b", "SymmModel.Props.C14All", "SymmModel.Driver.Heap2H", "SymmModel.Proofs.Heap3Sem", "SymmModel.Proofs.Heap3Prov", "SymmModel.Proofs.Heap3Value", "SymmModel.Props.C14c", "SymmModel.Props.C14All2", "SymmModel.Proofs.Heap4Frame", "SymmModel.Proofs.Heap4Sync", "SymmModel.Proofs.Heap4MulDiag", "SymmModel.Props.C14d", "SymmModel.Props.C14All3"]
 PLANNED = []
